@@ -946,6 +946,24 @@ func c10DecodeConcurrent(c *core.Ctx, k *core.Case) {
 		}
 		want[g] = obj
 	}
+	// rejected inputs are part of the traffic: for every worker up to eight variants of its
+	// input with one octet off by one that the decoder rejects sequentially (a wrong length
+	// octet, mostly), decoded before the workers start and every 16th time round
+	rejected := make([][][]byte, G)
+	for g := range inputs {
+		for p := def.HeaderLen(); p < len(inputs[g]) && p < def.HeaderLen()+96 && len(rejected[g]) < 8; p++ {
+			for _, d := range []byte{1, 0xff} {
+				v := cloneB(inputs[g])
+				v[p] += d
+				in := cloneB(v)
+				if err := msgDecoder(newMsgObj(def.Name), def.Name)(&in); err != nil {
+					rejected[g] = append(rejected[g], v)
+					break
+				}
+			}
+		}
+		c.Count("rejected_inputs_in_concurrent_decodes", int64(len(rejected[g])))
+	}
 	bad := make([]int, G)
 	var wg sync.WaitGroup
 	start := make(chan struct{})
@@ -955,6 +973,12 @@ func c10DecodeConcurrent(c *core.Ctx, k *core.Case) {
 			defer wg.Done()
 			<-start
 			for i := 0; i < reps; i++ {
+				if i%16 == 3 && len(rejected[g]) > 0 {
+					in := cloneB(rejected[g][i/16%len(rejected[g])])
+					if err := msgDecoder(newMsgObj(def.Name), def.Name)(&in); err == nil {
+						bad[g]++
+					}
+				}
 				obj := newMsgObj(def.Name)
 				in := cloneB(inputs[g])
 				if err := msgDecoder(obj, def.Name)(&in); err != nil || !reflect.DeepEqual(obj, want[g]) {
